@@ -12,6 +12,9 @@ CHECKS = {
  "C02": dict(engine="vsim", technique="runtime monitoring: exactly-once / intact / valid accounting of uniquely tagged application messages over simulator histories against the canonical chain",
    text="Exploration: on the same histories as C01 every application message (unique body) created on the canonical chain must be stored exactly once, unaltered and Processed at every converged client that was in its sending state (inside the configured past-epoch window at first delivery); messages of losing branches must not be left valid.",
    note="Judges only clients that converged (others are C01's business); default sender-ratchet windows are never exceeded by the generated bursts.", ref="5/C02"),
+ "C04": dict(engine="vsim+adversary", technique="runtime monitoring: adversarial-member workload (spoofed author, pre-set/stale rumor ids, odd fields, verbatim and re-wrapped replays, re-tagged wrappers) with a shadow map of stored messages and per-message binding checks re-evaluated after every attack at two honest receivers",
+   text="Exploration: after every one of N attacks by a malicious member every message stored at two honest receivers, in every group, must have an id that is the NIP-01 hash of its stored fields and of its stored event, an author equal to the identity whose MLS ciphertext it was, and no earlier stored message may have changed author or content or vanished; no body may be stored twice.",
+   note="The MLS-authenticated sender is known by construction (the harness knows whose stored state produced each ciphertext).", ref="5/C04"),
  "C06": dict(engine="vsim+adversary", technique="runtime monitoring: structure-aware hostile-input generation at four depths against a live victim client, panic/abnormal-exit observation in sharded child processes, before/after fingerprint oracle on every refusal (hostile inputs and ordinary histories)",
    text="Exploration: N hostile inputs (wrapper fields; correctly NIP-44-wrapped mutated MLS bytes; authentic MLS messages with hostile plaintext and unauthorised proposals/commits; welcome rumors, key-package events, every String parameter of the uniffi facade) are delivered to a victim in states idle / pending commit / pending proposals / inactive with a second group present. No call may panic (catch_unwind in the child, abnormal child exit seen by the parent) and every refusal must leave the fingerprint of every group, the group list and the pending welcomes unchanged. The same refusal oracle runs over ordinary simulator histories.",
    note="Third-party dependencies are built without debug assertions (OpenMLS debug_asserts on every AEAD failure), the mdk crates with them; SIGKILL/watchdog of a shard is inconclusive; the dedup/failure record is not observable state.", ref="5/C06"),
@@ -27,6 +30,9 @@ CHECKS = {
  "C10": dict(engine="vstore", technique="runtime monitoring: differential execution of generated operation histories on memory backend, SQLite backend and an executable reference model, comparing result classes and full read-outs",
    text="Exploration: held on N generated operation sequences; each operation's result class and periodically the complete read-out are compared between the two real backends and an independent ~300-line reference model of the storage contract.",
    note="Inside the intersection of both backends' documented limits; error wording not compared; LRU capacity never approached.", ref="5/C10"),
+ "C16": dict(engine="vsim+adversary", technique="runtime monitoring: invitation workload (valid welcome re-processed under same/fresh wrapper ids in every welcome state, accept/decline, forged welcomes built with OpenMLS by member/inviter/outsider) with before/after fingerprints of every group, stored-welcome comparison, joiner-vs-inviter state comparison and liveness probes of the existing group",
+   text="Exploration: on N invitation sequences: re-processing returns the same stored welcome and changes nothing; no group is Active without accept_welcome; after accept the joiner's MLS state, members, group data, relays and mirrored record equal the inviter's post-commit state with self-update Required; no invitation changes an Active group's fingerprint and that group still processes its next message and commit; a stored welcome is never replaced.",
+   note="wrapper_event_id of the stored welcome is not compared across wrapper ids; forged welcomes come from a throw-away OpenMLS group (MlsGroup::new_with_group_id) with hand-encoded group-data extension bytes.", ref="5/C16"),
  "C18": dict(engine="vstore", technique="runtime monitoring: ordering/pagination oracle over generated message sets on both backends + last-message-pointer invariant after every step of simulator histories",
    text="Exploration: every listing produced for generated message sets with forced timestamp ties is compared with the documented total order computed independently; pages are concatenated and compared with the full listing; out-of-range limits must be refused.",
    note="Two halves in one command: storage-level ordering/pagination on both backends, and the last-message pointer + ordering after every step of simulator histories.", ref="5/C18"),
@@ -67,7 +73,7 @@ def main():
         },
         "engines": [
             {"name": "vstore", "path": "/verif/harness/src/vstore", "serves_properties": ["C09", "C10", "C18", "C19"], "kind_free_text": "storage-level operation language, generator, interpreter over real backends, full read-out, executable reference model"},
-            {"name": "vsim", "path": "/verif/harness/src/sim", "serves_properties": ["C01", "C02", "C06", "C07", "C08", "C18", "C20"], "kind_free_text": "world simulator: N real MDK clients (memory / SQLite), relay log, harness-chosen delivery schedules, pinned wrapper timestamps, oracle replica, per-step monitors"},
+            {"name": "vsim", "path": "/verif/harness/src/sim", "serves_properties": ["C01", "C02", "C04", "C06", "C07", "C08", "C16", "C18", "C20"], "kind_free_text": "world simulator: N real MDK clients (memory / SQLite), relay log, harness-chosen delivery schedules, pinned wrapper timestamps, oracle replica, per-step monitors"},
         ],
         "checks": checks,
         "notes": "All checks: exit 0 = held on what was observed or inconclusive (reason in evidence.coverage.inconclusive); exit 1 + VIOLATION line = violated; exit 2 = harness does not build. Known findings: /verif/known-findings.txt.",
